@@ -26,11 +26,17 @@ Known(S) == {c \in S : c \in Ids}
 
 TapeInit == nodes = <<>> /\ sweep = <<>>
 
+\* C07: the result of an operation requires grad exactly when grad mode is on and some operand requires grad
+\* (r: function operand -> requires_grad)
+ResultRG(gm, r) == gm /\ \E k \in DOMAIN r : r[k]
+\* the rule as a table over K operands (handed to the catalogue drivers: every operation of the API, not only the
+\* operators of recorded programs, is held to it)
+FlagTable(K) == {[gm |-> gm, rg |-> r, out |-> ResultRG(gm, r)] : gm \in BOOLEAN, r \in [1..K -> BOOLEAN]}
+
 \* a tensor is created: leaf / constant (ch = {}) or the result of an operation
 New(id, ch, rg, gm) ==
   /\ id \notin Ids
-  \* C07: with operands, the result requires grad exactly when grad mode is on and some operand requires grad
-  /\ (ch # {} /\ Known(ch) = ch) => (rg = (gm /\ \E c \in ch : nodes[c].rg))
+  /\ (ch # {} /\ Known(ch) = ch) => (rg = ResultRG(gm, [c \in ch |-> nodes[c].rg]))
   /\ nodes' = [i \in Ids \cup {id} |-> IF i = id THEN [ch |-> Known(ch), rg |-> rg, fn |-> FALSE, ret |-> FALSE] ELSE nodes[i]]
   /\ UNCHANGED sweep
 
